@@ -223,6 +223,19 @@ def grids(tier, seed):
                 calls.append(['tyrvingScore', [g, age, ev, '%d.%02d' % (k // 100, k % 100)]])
                 if kind == 'race':
                     calls.append(['tyrvingScore', [g, age, ev, '%d.%d' % (k // 100, (k % 100) // 10)]])       # hand-timed
+                    # every spelling of a time the scorer reads: minutes / hours fields, ':' '.' and ',' as separators
+                    sec, hh = divmod(k, 100)
+                    if sec >= 60:
+                        m_, s_ = divmod(sec, 60)
+                        for t in ('%d:%02d.%02d' % (m_, s_, hh), '%d.%02d.%02d' % (m_, s_, hh), '%d.%02d.%d' % (m_, s_, hh // 10), '%d:%02d,%02d' % (m_, s_, hh)):
+                            calls.append(['tyrvingScore', [g, age, ev, t]])
+                    if sec >= 3600:
+                        h_, r_ = divmod(sec, 3600)
+                        m_, s_ = divmod(r_, 60)
+                        for t in ('%d:%02d:%02d.%02d' % (h_, m_, s_, hh), '%d.%02d.%02d.%02d' % (h_, m_, s_, hh), '%d.%02d.%02d.%d' % (h_, m_, s_, hh // 10),
+                                  '%d:%02d:%02d' % (h_, m_, s_)):
+                            calls.append(['tyrvingScore', [g, age, ev, t]])
+                    calls.append(['tyrvingScore', [g, age, ev, '%d,%02d' % (sec, hh)]])
         # the "or both refuse" half: ages just outside the columns of the row, unknown events and genders
         k = max(1, C11.ty_kmax(kind, pargs, ages[0]) // 2)
         for age in (ages[0] - 1, ages[0] - 2, ages[0] - 5, ages[-1] + 1, ages[-1] + 2, 0, -1, 100):
